@@ -8,6 +8,11 @@ BASE_NOTE = ("Trusted: Coq 8.16.1 kernel + vm_compute (no native_compute); the h
              "correspondence harness (Go overlay files, build tag verif, lib/vlib.py) that ties it to /repo on every run; "
              "Go toolchain and the modelled libraries. Print Assumptions of every property theorem is re-run and checked on every run. ")
 
+def ready():
+    """props/READY: ids whose check has been run by the coordinator on the clean tree and passes"""
+    f = os.path.join(V, "props", "READY")
+    return set(open(f).read().split()) if os.path.exists(f) else set()
+
 def load_claims():
     """props/Cxx.claim.json: {engine, technique, text, note, ref, [category], [engine_paths], [engine_kind]}"""
     claims = {}
@@ -34,7 +39,7 @@ def main():
     checks = []
     for pid in ALL:
         c = CLAIMS.get(pid)
-        if not c or not os.path.exists(os.path.join(V, "props", pid + ".py")):
+        if not c or not os.path.exists(os.path.join(V, "props", pid + ".py")) or pid not in ready():
             continue
         checks.append({
             "property_id": pid,
